@@ -112,3 +112,18 @@ def run(ctx, rep):
             rep.rules[R3]['failed'] += 1
             rep.discharged -= 1
             rep.finding(R3, f.key.replace('C15.', 'C10.R3/C15.', 1), f.where, f.construct, f.msg)
+    # R4: whichever constants an argument uses, the witness offered next is above all of them: C06.R0/R1/R2
+    from . import c06
+    R4 = rep.rule('C10.R4', 'the fresh-constant / fresh-world marks of Branch.append are above everything on the branch for every arrival order and '
+                            'every choice of symbols (C06.R0, R1, R2): renaming constants cannot make a witness collide')
+    sub = Report('C06', rep.tier, rep.repo)
+    c06.run(ctx, sub)
+    for rid in ('C06.R0', 'C06.R1', 'C06.R2'):
+        for _ in range(sub.rules.get(rid, {}).get('instances', 0)):
+            rep.instance(R4, ok=True)
+    rep.consulted |= sub.consulted
+    for f in sub.findings:
+        if f.rule in ('C06.R0', 'C06.R1', 'C06.R2'):
+            rep.rules[R4]['failed'] += 1
+            rep.discharged -= 1
+            rep.finding(R4, f.key.replace('C06.', 'C10.R4/C06.', 1), f.where, f.construct, f.msg)
